@@ -10,8 +10,11 @@ package main
 import (
 	"bytes"
 	"crypto/sha1"
+	"encoding/json"
 	"fmt"
 	"os"
+	"os/exec"
+	"path/filepath"
 	"regexp"
 	"sort"
 	"strconv"
@@ -30,15 +33,21 @@ import (
 // ---------------------------------------------------------------- source-level generator
 
 type sField struct {
+	Name   string
+	Text   string   // right-hand side as written, e.g. "set of App2.X"
+	Arr    bool     // name(1..3) <: ...
+	Inline []sField // in-place tuple: `name <:` followed by an indented block of fields
+}
+type sItem struct {
 	Name string
-	Text string // right-hand side as written, e.g. "set of App2.X"
-	Arr  bool   // name(1..3) <: ...
+	Val  int
 }
 type sType struct {
 	Kind   string // tuple table enum alias aliasref union empty
 	Name   string
 	Fields []sField
 	Prim   string
+	Items  []sItem
 	Nested []*sType
 	path   []string
 	app    string
@@ -48,13 +57,17 @@ type sApp struct {
 	Types []*sType
 }
 
-var prims = []string{"int", "string", "bool", "date", "datetime", "float", "decimal", "bytes", "any", "int64", "string(10)"}
+var prims = []string{"int", "string", "bool", "date", "datetime", "float", "decimal", "bytes", "any", "int64", "string(10)", "int(5)", "decimal(5.2)", "string(1..10)"}
 
 // names in prefix relation (Model / ModelExt, A / A :: B, App1 / App10) and applications named like types (Outer, T)
-var appPool = []string{"App1", "App2", "Ns :: App3", "Outer", "T", "Ns :: Sub :: App4", "Model", "ModelExt", "A", "A :: B", "App10", "Ns"}
-var typePool = []string{"T", "U", "Outer", "Inner", "Id", "Color", "X", "Y", "Account", "Cust"}
+// (round 3) App%2E2 is the application "App.2": its name has '.', and App is the first chunk of that name
+var appPool = []string{"App1", "App2", "Ns :: App3", "Outer", "T", "Ns :: Sub :: App4", "Model", "ModelExt", "A", "A :: B", "App10", "Ns", "App", "App%2E2"}
+var typePool = []string{"T", "U", "Outer", "Inner", "Id", "Color", "X", "Y", "Account", "Cust", "Dot%2EName", "V%2E1"}
 
-var prefixPairs = [][]string{{"Model", "ModelExt"}, {"A", "A :: B"}, {"App1", "App10"}, {"Ns", "Ns :: App3"}, {"Ns", "Ns :: Sub :: App4"}, {"ModelExt", "Model"}}
+var prefixPairs = [][]string{{"Model", "ModelExt"}, {"A", "A :: B"}, {"App1", "App10"}, {"Ns", "Ns :: App3"}, {"Ns", "Ns :: Sub :: App4"}, {"ModelExt", "Model"}, {"App", "App%2E2"}, {"App%2E2", "App"}}
+
+// the name the compiler keeps for a written name
+func unesc(s string) string { return strings.ReplaceAll(s, "%2E", ".") }
 
 type gen struct {
 	r    *common.Rng
@@ -113,6 +126,12 @@ func (g *gen) declare(app string, prefix []string, depth int, used map[string]bo
 // how a reference to t is written from inside application `from`
 func (g *gen) refText(from string, t *sType) string {
 	p := strings.Join(t.path, ".")
+	if len(t.path) > 1 && g.r.Chance(1, 3) {
+		p = strings.Join(t.path, "%2E") // the nested type named by ONE path element "Outer.Inner"
+	}
+	if t.app != from && !strings.Contains(t.app, "::") && !strings.Contains(t.app, "%2E") && len(t.path) == 1 && g.r.Chance(1, 14) {
+		return t.app + "%2E" + p // one path element "App2.Y" inside `from`: names no type of `from`
+	}
 	// (a type named like its own application is always written with the application: the parser reads
 	// `Outer.c0` inside application Outer as application + type, and DrawRelation then indexes Path[1] of a
 	// one-element path - the crash site belongs to property C20)
@@ -160,6 +179,14 @@ func (g *gen) fill(t *sType) {
 				return g.refText(t.app, tg)
 			}
 			switch {
+			case k < 5 && len(t.path) == 1:
+				for j, m := 0, 1+g.r.Intn(3); j < m; j++ {
+					sf := sField{Name: fmt.Sprintf("x%d", j), Text: g.pick(prims)}
+					if g.r.Chance(1, 2) {
+						sf.Text = elem(false)
+					}
+					f.Inline = append(f.Inline, sf)
+				}
 			case k < 30:
 				f.Text = g.pick(prims)
 			case k < 38:
@@ -219,6 +246,15 @@ func (g *gen) fill(t *sType) {
 				f.Text = g.pick([]string{"set of ", "sequence of "}) + g.pick([]string{"int", g.refText(t.app, tg)})
 			}
 			t.Fields = append(t.Fields, f)
+		}
+	case "enum":
+		names := []string{"RED", "GREEN", "BLUE", "CYAN"}
+		n := 1 + g.r.Intn(4)
+		for i := 0; i < n; i++ {
+			t.Items = append(t.Items, sItem{names[i], g.r.Intn(7)})
+		}
+		if n > 1 && g.r.Chance(1, 4) {
+			t.Items[n-1].Val = t.Items[0].Val // two enumerators with one value
 		}
 	case "aliasref":
 		t.Prim = g.pick([]string{"set of int", g.refText(t.app, g.all[g.r.Intn(len(g.all))]), "sequence of string"})
@@ -290,13 +326,23 @@ func renderType(b *strings.Builder, t *sType, ind string) {
 			if f.Arr {
 				arr = "(1..3)"
 			}
+			if f.Inline != nil {
+				fmt.Fprintf(b, "%s    %s <:\n", ind, f.Name)
+				for _, sf := range f.Inline {
+					fmt.Fprintf(b, "%s        %s <: %s\n", ind, sf.Name, sf.Text)
+				}
+				continue
+			}
 			fmt.Fprintf(b, "%s    %s%s <: %s\n", ind, f.Name, arr, f.Text)
 		}
 		for _, n := range t.Nested {
 			renderType(b, n, ind+"    ")
 		}
 	case "enum":
-		fmt.Fprintf(b, "%s!enum %s:\n%s    RED: 2\n%s    GREEN: 1\n%s    BLUE: 5\n", ind, t.Name, ind, ind, ind)
+		fmt.Fprintf(b, "%s!enum %s:\n", ind, t.Name)
+		for _, it := range t.Items {
+			fmt.Fprintf(b, "%s    %s: %d\n", ind, it.Name, it.Val)
+		}
 	case "alias", "aliasref":
 		fmt.Fprintf(b, "%s!alias %s:\n%s    %s\n", ind, t.Name, ind, t.Prim)
 	case "union":
@@ -322,73 +368,173 @@ func render(apps []*sApp) string {
 }
 
 // the shapes Appendix B of DESIGN.md and the property's quantifier name; run first in every tier
-var corpus = []struct{ name, filter, text string }{
-	{"same-table-name-in-two-apps", "", "App1:\n    !table T:\n        c0 <: int [~pk]\n        c1 <: App2.T.c0\n    !table U:\n        c0 <: int [~pk]\n        c1 <: T.c0\nApp2:\n    !table T:\n        c0 <: int [~pk]\n"},
-	{"two-references-to-one-target", "", "App1:\n    !type A:\n        f0 <: B\n        f1 <: B\n        f2 <: set of B\n        f3 <: int\n    !type B:\n        f0 <: string\n    !table P:\n        c0 <: int [~pk]\n        c1 <: Q.c0\n        c2 <: Q.c0\n        c3 <: Q.c0\n    !table Q:\n        c0 <: int [~pk]\n"},
-	{"nested-next-to-short", "", "App1:\n    !type A:\n        f0 <: B\n        f1 <: A.B\n        f2 <: sequence of B\n        !type B:\n            f0 <: int\n    !type B:\n        f0 <: A\n"},
-	{"primitive-alias-referenced", "", "App1:\n    !type U:\n        f0 <: Id\n        f1 <: App2.Id\n    !alias Id:\n        int\nApp2:\n    !alias Id:\n        string\n    !type V:\n        f0 <: Id\n"},
-	{"self-references", "", "App1:\n    !type N:\n        f0 <: N\n        f1 <: set of N\n        f2(1..3) <: N\n        f3 <: sequence of App1.N\n    !table T:\n        c0 <: int [~pk]\n        c1 <: T.c0\n"},
-	{"cross-app-nested-vs-app-named-like-type", "", "App1:\n    !type Outer:\n        f0 <: int\n        !type Inner:\n            f0 <: int\nApp2:\n    !type R:\n        f0 <: App1.Outer.Inner\n        f1 <: App1.Outer\nOuter:\n    !type Inner:\n        f0 <: string\n"},
-	{"nested-table-next-to-table", "", "App1:\n    !table T:\n        c0 <: int [~pk]\n    !table X:\n        c0 <: int [~pk]\n        c1 <: T.c0\n        !table T:\n            c0 <: int [~pk]\n"},
-	{"enum-and-cross-app", "", "App1:\n    !type U:\n        f0 <: Color\n        f1 <: set of Ns :: App3.Y\n        f2 <: Ns :: App3.Y\n    !enum Color:\n        RED: 2\n        GREEN: 1\nNs :: App3:\n    !type Y:\n        f0 <: App1.U\n"},
-	{"per-app-view", "App1", "App1:\n    !type U:\n        f0 <: V\n        f1 <: App2.W\n        f2 <: App2.W\n    !type V:\n        f0 <: int\nApp2:\n    !type W:\n        f0 <: App1.U\n"},
-	{"per-app-view-prefix-name-short", "Model", "Model:\n    !type U:\n        f0 <: V\n        f1 <: ModelExt.W\n    !type V:\n        f0 <: int\nModelExt:\n    !type W:\n        f0 <: Model.U\n        f1 <: X\n    !type X:\n        f0 <: int\n    !table T:\n        c0 <: int [~pk]\n"},
-	{"per-app-view-prefix-name-long", "ModelExt", "Model:\n    !type U:\n        f0 <: V\n    !type V:\n        f0 <: int\nModelExt:\n    !type W:\n        f0 <: Model.U\n        f1 <: X\n    !type X:\n        f0 <: int\n"},
-	{"per-app-view-namespace-prefix", "A", "A:\n    !type U:\n        f0 <: A :: B.W\n    !enum Color:\n        RED: 1\nA :: B:\n    !type W:\n        f0 <: A.U\n    !alias Id:\n        int\n"},
-	{"table-dangling-key-by-bare-name", "", "App1:\n    !table T:\n        c0 <: int [~pk]\n        c1 <: Nope.c0\n        c2 <: T.c0\n"},
-	{"table-with-collections", "", "App1:\n    !table T:\n        c0 <: int [~pk]\n        c1 <: set of int\n        c2 <: sequence of U\n    !table U:\n        c0 <: int [~pk]\n"},
+var corpus = []struct {
+	name, filter, text string
+	spec               *wspec
+}{
+	{"same-table-name-in-two-apps", "", "App1:\n    !table T:\n        c0 <: int [~pk]\n        c1 <: App2.T.c0\n    !table U:\n        c0 <: int [~pk]\n        c1 <: T.c0\nApp2:\n    !table T:\n        c0 <: int [~pk]\n", nil},
+	{"two-references-to-one-target", "", "App1:\n    !type A:\n        f0 <: B\n        f1 <: B\n        f2 <: set of B\n        f3 <: int\n    !type B:\n        f0 <: string\n    !table P:\n        c0 <: int [~pk]\n        c1 <: Q.c0\n        c2 <: Q.c0\n        c3 <: Q.c0\n    !table Q:\n        c0 <: int [~pk]\n", nil},
+	{"nested-next-to-short", "", "App1:\n    !type A:\n        f0 <: B\n        f1 <: A.B\n        f2 <: sequence of B\n        !type B:\n            f0 <: int\n    !type B:\n        f0 <: A\n", nil},
+	{"primitive-alias-referenced", "", "App1:\n    !type U:\n        f0 <: Id\n        f1 <: App2.Id\n    !alias Id:\n        int\nApp2:\n    !alias Id:\n        string\n    !type V:\n        f0 <: Id\n", nil},
+	{"self-references", "", "App1:\n    !type N:\n        f0 <: N\n        f1 <: set of N\n        f2(1..3) <: N\n        f3 <: sequence of App1.N\n    !table T:\n        c0 <: int [~pk]\n        c1 <: T.c0\n", nil},
+	{"cross-app-nested-vs-app-named-like-type", "", "App1:\n    !type Outer:\n        f0 <: int\n        !type Inner:\n            f0 <: int\nApp2:\n    !type R:\n        f0 <: App1.Outer.Inner\n        f1 <: App1.Outer\nOuter:\n    !type Inner:\n        f0 <: string\n", nil},
+	{"nested-table-next-to-table", "", "App1:\n    !table T:\n        c0 <: int [~pk]\n    !table X:\n        c0 <: int [~pk]\n        c1 <: T.c0\n        !table T:\n            c0 <: int [~pk]\n", nil},
+	{"enum-and-cross-app", "", "App1:\n    !type U:\n        f0 <: Color\n        f1 <: set of Ns :: App3.Y\n        f2 <: Ns :: App3.Y\n    !enum Color:\n        RED: 2\n        GREEN: 1\nNs :: App3:\n    !type Y:\n        f0 <: App1.U\n", nil},
+	{"per-app-view", "App1", "App1:\n    !type U:\n        f0 <: V\n        f1 <: App2.W\n        f2 <: App2.W\n    !type V:\n        f0 <: int\nApp2:\n    !type W:\n        f0 <: App1.U\n", nil},
+	{"per-app-view-prefix-name-short", "Model", "Model:\n    !type U:\n        f0 <: V\n        f1 <: ModelExt.W\n    !type V:\n        f0 <: int\nModelExt:\n    !type W:\n        f0 <: Model.U\n        f1 <: X\n    !type X:\n        f0 <: int\n    !table T:\n        c0 <: int [~pk]\n", nil},
+	{"per-app-view-prefix-name-long", "ModelExt", "Model:\n    !type U:\n        f0 <: V\n    !type V:\n        f0 <: int\nModelExt:\n    !type W:\n        f0 <: Model.U\n        f1 <: X\n    !type X:\n        f0 <: int\n", nil},
+	{"per-app-view-namespace-prefix", "A", "A:\n    !type U:\n        f0 <: A :: B.W\n    !enum Color:\n        RED: 1\nA :: B:\n    !type W:\n        f0 <: A.U\n    !alias Id:\n        int\n", nil},
+	{"table-dangling-key-by-bare-name", "", "App1:\n    !table T:\n        c0 <: int [~pk]\n        c1 <: Nope.c0\n        c2 <: T.c0\n", nil},
+	{"table-with-collections", "", "App1:\n    !table T:\n        c0 <: int [~pk]\n        c1 <: set of int\n        c2 <: sequence of U\n    !table U:\n        c0 <: int [~pk]\n", nil},
+	// round 3
+	{"inplace-tuple", "", "App1:\n    !type A:\n        f0 <: int\n        inl <:\n            x <: int\n            y <: B\n    !type B:\n        f0 <: string(10)\n", nil},
+	{"enum-items-and-repeated-value", "", "App1:\n    !enum E:\n        RED: 2\n        GREEN: 1\n        BLUE: 5\n    !enum F:\n        A: 1\n        B: 1\n        C: 0\n", nil},
+	{"names-with-dot", "", "App1:\n    !type Dot%2EName:\n        f0 <: Outer%2EInner\n        f1 <: App%2E2.T\n        f2 <: set of Outer%2EInner\n    !type Outer:\n        f0 <: int\n        !type Inner:\n            f0 <: int\nApp%2E2:\n    !type T:\n        f0 <: App1.Dot%2EName\n", nil},
+	{"app-name-with-dot-view-of-it", "App.2", "App:\n    !type X:\n        f0 <: int\nApp%2E2:\n    !type T:\n        f0 <: int\n        f1 <: App.X\n", nil},
+	{"app-name-with-dot-view-of-first-chunk", "App", "App:\n    !type X:\n        f0 <: int\nApp%2E2:\n    !type T:\n        f0 <: int\n        f1 <: App.X\n", nil},
+	{"nested-name-in-collection", "", "App1:\n    !type A:\n        f0 <: set of Outer.Inner\n        f1 <: sequence of Outer%2EInner\n    !type Outer:\n        f0 <: int\n        !type Inner:\n            f0 <: int\n", nil},
+	{"one-element-path-naming-app-and-type", "", "App1:\n    !type A:\n        f0 <: App2%2EY\nApp2:\n    !type Y:\n        f0 <: int\n", nil},
+	{"all-type-kinds", "", "App1:\n    !type Tu:\n        f0 <: Al\n        f1 <: Ar\n        f2 <: Ac\n        f3 <: Un\n        f4 <: En\n        f5 <: Ta.c0\n    !table Ta:\n        c0 <: int [~pk]\n    !enum En:\n        A: 1\n    !alias Al:\n        int\n    !alias Ar:\n        Tu\n    !alias Ac:\n        sequence of Tu\n    !union Un:\n        int\n        Tu\n", nil},
+	{"project-endpoint-two-apps", "", "App1:\n    !type A:\n        f0 <: int\nApp2:\n    !type B:\n        f0 <: App1.A\n", &wspec{Output: "%(epname).png", Project: projectApp, Endpoints: []wEndpoint{{"V1", []string{"App1", "App2"}}, {"V2", []string{"return ok", "Nope", "App1"}}, {"V3", []string{"Nope"}}}, Key: "V1.png"}},
+	{"project-without-epname", "", "App1:\n    !type A:\n        f0 <: int\nApp2:\n    !type B:\n        f0 <: App1.A\n", &wspec{Output: "all.png", Project: projectApp, Endpoints: []wEndpoint{{"V1", []string{"App1"}}, {"V2", []string{"App2"}}}}},
+	{"project-not-found", "", "App1:\n    !type A:\n        f0 <: int\n", &wspec{Output: "%(epname).png", Project: "NoSuchProject"}},
+	{"project-filter", "", "App1:\n    !type A:\n        f0 <: int\nApp2:\n    !type B:\n        f0 <: App1.A\n", &wspec{Output: "%(epname).png", Project: projectApp, Filter: "V2", Endpoints: []wEndpoint{{"V1", []string{"App1"}}, {"V2", []string{"App2"}}}, Key: "V2.png"}},
+	{"direct-epname-class-format-title", "", "App1:\n    !type A:\n        f0 <: int\nApp2:\n    !type B:\n        f0 <: App1.A\n", &wspec{Direct: true, Output: "%(epname).png", ClassFormat: "[%(classname)]", Title: "T", Key: "App2.png"}},
 }
 
 // ---------------------------------------------------------------- real run
 
 var nullLogger = func() *logrus.Logger { l := logrus.New(); l.SetOutput(new(bytes.Buffer)); return l }()
 
-type obsT struct {
-	parseErr string
-	panicMsg string
-	missing  bool // no diagram for the requested key
-	text     string
-}
-
 const projectApp = "VerifProject"
 
-func compile(text, filter string) (*sysl.Module, error) {
-	if filter != "" {
-		text += projectApp + ":\n    View:\n        " + filter + "\n"
-	}
-	return parse.NewParser().ParseString(text)
+// one invocation of `sysl datamodel`
+type wEndpoint struct {
+	Name  string   `json:"name"`
+	Stmts []string `json:"statements"` // an application name (an action naming it), any other text, or "return ok"
+}
+type wspec struct {
+	Direct      bool        `json:"direct"`
+	Output      string      `json:"output"`
+	Project     string      `json:"project,omitempty"`
+	Endpoints   []wEndpoint `json:"endpoints,omitempty"` // of the generated project application
+	Filter      string      `json:"filter,omitempty"`
+	ClassFormat string      `json:"class_format,omitempty"`
+	Title       string      `json:"title,omitempty"`
+	Key         string      `json:"look_at,omitempty"` // the output name whose diagram goes to the Coq case
 }
 
-func runReal(m *sysl.Module, filter string, direct bool) (o obsT) {
+func (w *wspec) params() *cmdutils.CmdContextParamDatagen {
+	cf := w.ClassFormat
+	if cf == "" {
+		cf = "%(classname)"
+	}
+	return &cmdutils.CmdContextParamDatagen{Output: w.Output, Direct: w.Direct, Project: w.Project, Filter: w.Filter, ClassFormat: cf, Title: w.Title}
+}
+
+func (w *wspec) hasEp() bool { return strings.Contains(w.Output, "%(epname)") }
+
+func projectText(w *wspec) string {
+	if w.Direct || len(w.Endpoints) == 0 {
+		return ""
+	}
+	var b strings.Builder
+	b.WriteString(projectApp + ":\n")
+	for _, e := range w.Endpoints {
+		fmt.Fprintf(&b, "    %s:\n", e.Name)
+		for _, st := range e.Stmts {
+			fmt.Fprintf(&b, "        %s\n", st)
+		}
+	}
+	return b.String()
+}
+
+func compile(text string, w *wspec) (*sysl.Module, error) {
+	return parse.NewParser().ParseString(text + projectText(w))
+}
+
+type obsT struct {
+	panicMsg string
+	errMsg   string
+	res      map[string]string
+}
+
+func runReal(m *sysl.Module, w *wspec) (o obsT) {
 	defer func() {
 		if r := recover(); r != nil {
 			o.panicMsg = fmt.Sprint(r)
+			o.res = nil
 		}
 	}()
-	// whole-model view: --direct with an output name without %(epname) (every application yields the same text);
-	// per-application view: project manner (the project's single endpoint naming that application), or --direct
-	// with %(epname) in the output name, which draws one view per application
-	p := &cmdutils.CmdContextParamDatagen{Output: "all.png", Direct: true, ClassFormat: "%(classname)"}
-	key := "all.png"
-	if filter != "" && direct {
-		p = &cmdutils.CmdContextParamDatagen{Output: "%(epname).png", Direct: true, ClassFormat: "%(classname)"}
-		key = filter + ".png"
-	} else if filter != "" {
-		p = &cmdutils.CmdContextParamDatagen{Output: "%(epname).png", Project: projectApp, ClassFormat: "%(classname)"}
-		key = "View.png"
-	}
-	res, err := datamodeldiagram.GenerateDataModels(p, m, nullLogger)
+	res, err := datamodeldiagram.GenerateDataModels(w.params(), m, nullLogger)
 	if err != nil {
-		o.panicMsg = "error: " + err.Error()
+		o.errMsg = err.Error()
 		return
 	}
-	txt, ok := res[key]
-	if !ok {
-		o.missing = true
-		return
-	}
-	o.text = txt
+	o.res = res
 	return
+}
+
+// what an output name is expected to hold, worked out from the module and the invocation alone
+type coverT struct {
+	apps    map[string]bool // nil: the whole model
+	several bool            // a project endpoint that names several applications
+	last    string          // ... the one named last
+	desc    string
+}
+
+func (cv *coverT) has(app string) bool { return cv.apps == nil || cv.apps[app] }
+
+// expected output names -> cover; independent of datamodel.go (the format parser is replaced by the substitution of
+// %(epname), which is all the generated output templates contain)
+func expected(m *sysl.Module, w *wspec) (map[string]*coverT, bool) {
+	out := map[string]*coverT{}
+	name := func(ep string) string { return strings.ReplaceAll(w.Output, "%(epname)", ep) }
+	if w.Direct {
+		for an := range m.GetApps() {
+			if w.hasEp() {
+				out[name(an)] = &coverT{apps: map[string]bool{an: true}, last: an, desc: "the view of application " + an}
+			} else {
+				out[name("")] = &coverT{desc: "the whole model"}
+			}
+		}
+		return out, true
+	}
+	pa := m.GetApps()[w.Project]
+	if pa == nil {
+		return nil, false
+	}
+	var re *regexp.Regexp
+	if w.Filter != "" {
+		re = regexp.MustCompile(w.Filter)
+	}
+	for en, ep := range pa.GetEndpoints() {
+		k := name(en)
+		if re != nil && !re.MatchString(k) {
+			continue
+		}
+		cv := &coverT{apps: map[string]bool{}, desc: "endpoint " + en + " of the project"}
+		for _, st := range ep.GetStmt() {
+			if a := st.GetAction(); a != nil {
+				if _, ok := m.GetApps()[a.GetAction()]; ok {
+					cv.apps[a.GetAction()] = true
+					cv.last = a.GetAction()
+				}
+			}
+		}
+		if len(cv.apps) == 0 {
+			continue
+		}
+		cv.several = len(cv.apps) > 1
+		if !w.hasEp() {
+			cv.apps, cv.several = nil, false
+		}
+		if old := out[k]; old != nil && old.apps != nil { // several endpoints write one name (no %(epname)): the whole model each time
+			continue
+		}
+		out[k] = cv
+	}
+	return out, true
 }
 
 // ---------------------------------------------------------------- diagram reader
@@ -402,6 +548,7 @@ type dClass struct {
 	name   string
 	head   string // "class" | "prim:<name>" | "enum"
 	fields []dField
+	items  []string // lines of an enum block
 }
 type dEdge struct {
 	from, to int
@@ -434,7 +581,8 @@ func readDiagram(txt string) *diagram {
 			cur, inEnum = nil, false
 			continue
 		case cur != nil && inEnum:
-			continue // enum items are not part of the property
+			cur.items = append(cur.items, ln)
+			continue
 		}
 		if cur != nil {
 			if m := reField.FindStringSubmatch(ln); m != nil {
@@ -503,6 +651,8 @@ type refInfo struct {
 	isRef  bool
 	untyp  bool
 	nested bool
+	nparts int  // number of parts of the application name written in the reference
+	noctx  bool // the reference carries no context (in-place tuple)
 }
 
 func fieldInfo(t *sysl.Type) refInfo {
@@ -514,8 +664,10 @@ func fieldInfo(t *sysl.Type) refInfo {
 		case e.GetTypeRef() != nil:
 			ri.isRef = true
 			ri.path = e.GetTypeRef().GetRef().GetPath()
+			ri.noctx = e.GetTypeRef().GetContext() == nil
 			if ps := e.GetTypeRef().GetRef().GetAppname().GetPart(); len(ps) > 0 {
 				ri.app = strings.Join(ps, " :: ")
+				ri.nparts = len(ps)
 			}
 		default:
 			ri.untyp = true
@@ -595,7 +747,39 @@ func labelOK(owner *cType, ri refInfo, label string) bool {
 	return true
 }
 
-func judge(c *common.Ctx, m *sysl.Module, filter string, o obsT, replay interface{}) (nontrivial bool) {
+// the type a reference of a field of ct means, by the compiler's own scoping rule (written here a second time, in
+// Go and independently of the view code and of the Coq model): an in-place tuple is the nested type Owner.field; an
+// application part of one element that names no application with such a type, but a type of the current application,
+// is a deep local reference (pkg/parse fixTypeRefScope - which the parser applies to direct references only);
+// otherwise the application of the reference or the current one, then the whole path (a table's foreign key
+// Table.column: without the column)
+func resolveRef(existing map[string]*cType, ct *cType, ri refInfo) (full string, tp []string, why string) {
+	tp = ri.path
+	if ct.kind == "table" && len(tp) >= 2 {
+		tp = tp[:len(tp)-1]
+	}
+	why = "plain"
+	if ri.noctx && len(tp) == 1 && existing[ct.app+"."+ct.name+"."+tp[0]] != nil {
+		return ct.app + "." + ct.name + "." + tp[0], tp, "inplace-tuple"
+	}
+	app := ri.app
+	if app == "" {
+		app = ct.app
+	}
+	if ri.nparts == 1 && ri.app != ct.app && existing[ri.app+"."+tp[0]] == nil && existing[ct.app+"."+ri.app] != nil {
+		w := "nested-path"
+		if ri.wrap != "" {
+			w = "nested-path-in-collection"
+		}
+		return ct.app + "." + ri.app + "." + strings.Join(tp, "."), append([]string{ri.app}, tp...), w
+	}
+	if len(tp) > 1 {
+		why = "nested-path"
+	}
+	return app + "." + strings.Join(tp, "."), tp, why
+}
+
+func judge(c *common.Ctx, m *sysl.Module, cov *coverT, text string, replay interface{}) (nontrivial bool) {
 	j := &judgeCtx{c, replay, map[string]bool{}}
 	existing := map[string]*cType{}
 	var covered []*cType
@@ -610,7 +794,7 @@ func judge(c *common.Ctx, m *sysl.Module, filter string, o obsT, replay interfac
 			k, p := kindOf(t)
 			ct := &cType{app: app, name: tn, kind: k, prim: p, t: t}
 			existing[app+"."+tn] = ct
-			if k != "other" && (filter == "" || app == filter) {
+			if k != "other" && cov.has(app) {
 				covered = append(covered, ct)
 			}
 			if k == "table" {
@@ -623,19 +807,8 @@ func judge(c *common.Ctx, m *sysl.Module, filter string, o obsT, replay interfac
 		}
 	}
 	sort.Slice(covered, func(a, b int) bool { return covered[a].app+"."+covered[a].name < covered[b].app+"."+covered[b].name })
-	if o.panicMsg != "" {
-		key := "panic:other"
-		if hasTableShortRef {
-			key = "panic:table-ref-without-field"
-		}
-		j.fail(key, fmt.Sprintf("no diagram: GenerateDataModels panicked (%s)", o.panicMsg))
-		return true
-	}
-	if o.missing {
-		j.fail("diagram-missing", "GenerateDataModels returned no diagram for "+filter)
-		return true
-	}
-	d := readDiagram(o.text)
+	_ = hasTableShortRef
+	d := readDiagram(text)
 	for _, b := range d.bad {
 		j.fail("unreadable-line", fmt.Sprintf("diagram line %q is neither a class, a field nor a relationship", b))
 	}
@@ -645,12 +818,22 @@ func judge(c *common.Ctx, m *sysl.Module, filter string, o obsT, replay interfac
 		byName[cl.name] = append(byName[cl.name], cl)
 	}
 	classOf := map[*cType]*dClass{}
+	severalMissing, dottedView := false, false
 	for _, ct := range covered {
 		full := ct.app + "." + ct.name
 		cls := byName[full]
 		switch {
 		case len(cls) == 0:
-			j.fail("class-missing:"+ct.kind, fmt.Sprintf("type %s (%s) has no class in the diagram", full, ct.kind))
+			switch {
+			case cov.several && ct.app != cov.last:
+				severalMissing = true
+				j.fail("class-missing:project-endpoint-several-apps", fmt.Sprintf("%s names several applications; type %s (%s) of an application not named last has no class in its diagram", cov.desc, full, ct.kind))
+			case cov.apps != nil && strings.Contains(ct.app, "."):
+				dottedView = true
+				j.fail("class-missing:app-name-with-dot", fmt.Sprintf("%s: type %s (%s) has no class in the diagram (the application name contains '.')", cov.desc, full, ct.kind))
+			default:
+				j.fail("class-missing:"+ct.kind, fmt.Sprintf("%s: type %s (%s) has no class in the diagram", cov.desc, full, ct.kind))
+			}
 			continue
 		case len(cls) > 1:
 			j.fail("class-duplicate:"+ct.kind, fmt.Sprintf("type %s is declared %d times", full, len(cls)))
@@ -669,8 +852,13 @@ func judge(c *common.Ctx, m *sysl.Module, filter string, o obsT, replay interfac
 	}
 	for _, cl := range d.classes {
 		ct := existing[cl.name]
-		if ct == nil || ct.kind == "other" || (filter != "" && ct.app != filter) {
-			j.fail("class-extra", fmt.Sprintf("class %q is no table, tuple, primitive alias or enum of the covered model", cl.name))
+		if ct == nil || ct.kind == "other" || !cov.has(ct.app) {
+			if ct != nil && ct.kind != "other" && strings.Contains(ct.app, ".") {
+				dottedView = true
+				j.fail("class-extra:app-name-with-dot", fmt.Sprintf("%s: class %q belongs to application %s, whose name merely starts with the same '.'-chunk", cov.desc, cl.name, ct.app))
+			} else {
+				j.fail("class-extra", fmt.Sprintf("%s: class %q is no table, tuple, primitive alias or enum of the covered model", cov.desc, cl.name))
+			}
 		}
 	}
 	byAlias := map[int][]*dClass{}
@@ -699,6 +887,33 @@ func judge(c *common.Ctx, m *sysl.Module, filter string, o obsT, replay interfac
 		if cl == nil {
 			continue
 		}
+		if ct.kind == "enum" {
+			// enumerators: every line names an enumerator; each enumerator is listed once
+			items := ct.t.GetEnum().GetItems()
+			byVal := map[int64]int{}
+			for _, v := range items {
+				byVal[v]++
+			}
+			seenItem := map[string]int{}
+			for _, ln := range cl.items {
+				if _, ok := items[ln]; !ok {
+					j.fail("enum-item-extra", fmt.Sprintf("enum %s.%s lists %q, which is not one of its enumerators", ct.app, ct.name, ln))
+				}
+				seenItem[ln]++
+			}
+			for n, v := range items {
+				suf := ""
+				if byVal[v] > 1 {
+					suf = ":duplicate-value"
+				}
+				switch {
+				case seenItem[n] == 0:
+					j.fail("enum-item-missing"+suf, fmt.Sprintf("enumerator %s of %s.%s is not listed", n, ct.app, ct.name))
+				case seenItem[n] > 1:
+					j.fail("enum-item-duplicate"+suf, fmt.Sprintf("enumerator %s of %s.%s is listed %d times", n, ct.app, ct.name, seenItem[n]))
+				}
+			}
+		}
 		if ct.kind != "table" && ct.kind != "tuple" {
 			if len(cl.fields) > 0 {
 				j.fail("field-extra", fmt.Sprintf("%s %s.%s lists fields", ct.kind, ct.app, ct.name))
@@ -722,6 +937,8 @@ func judge(c *common.Ctx, m *sysl.Module, filter string, o obsT, replay interfac
 					tk = "prim"
 				} else if (ct.kind == "table" && len(ri.path) > 2) || (ct.kind == "tuple" && len(ri.path) > 1) {
 					tk = "nested-ref"
+				} else if ri.noctx {
+					tk = "inplace"
 				}
 			}
 			switch seen[fn] {
@@ -744,8 +961,8 @@ func judge(c *common.Ctx, m *sysl.Module, filter string, o obsT, replay interfac
 		}
 	}
 	// ---- relationships
-	if collision {
-		return true // aliases are ambiguous: the collision is the finding
+	if collision || severalMissing || dottedView {
+		return true // aliases are ambiguous / a whole application is missing: that is the finding
 	}
 	aliasClass := map[int]*dClass{}
 	for _, cl := range d.classes {
@@ -767,23 +984,18 @@ func judge(c *common.Ctx, m *sysl.Module, filter string, o obsT, replay interfac
 		}
 		exp := map[string]int{}
 		why := map[string]string{}
-		tolerated, hasNested, danglingTableRef := 0, false, false
+		tolerated, hasNested, danglingTableRef, bareHit, dottedTable := 0, false, false, false, false
 		for _, ft := range attrsOf(ct.t) {
 			ri := fieldInfo(ft)
 			if !ri.isRef || len(ri.path) == 0 {
 				continue
 			}
-			tp := ri.path
-			if ct.kind == "table" && len(tp) >= 2 {
-				tp = tp[:len(tp)-1] // Table.column
-			}
-			app := ri.app
-			if app == "" {
-				app = ct.app
-			}
-			full := app + "." + strings.Join(tp, ".")
+			full, tp, rwhy := resolveRef(existing, ct, ri)
 			if len(tp) > 1 {
 				hasNested = true
+			}
+			if len(ri.path) == 1 && strings.Contains(ri.path[0], ".") && existing[full] == nil && existing[ri.path[0]] != nil {
+				bareHit = true // Types[typeName] finds an App.Type key for the one-element path "App.Type"
 			}
 			tgt := existing[full]
 			if tgt == nil {
@@ -798,13 +1010,16 @@ func judge(c *common.Ctx, m *sysl.Module, filter string, o obsT, replay interfac
 			}
 			nontrivial = true
 			exp[full]++
-			r := "plain"
+			r := rwhy
 			switch {
+			case ct.kind == "table" && strings.Contains(ct.app, ".") && ri.app == "":
+				r = "table-in-app-name-with-dot" // DrawRelation takes the first '.'-chunk of the name for the application
+				dottedTable = true
 			case tgt.kind == "prim":
 				r = "to-primitive-alias"
 			case ct.kind == "table" && ri.wrap != "":
 				r = "table-collection"
-			case len(tp) > 1:
+			case r == "plain" && len(tp) > 1:
 				r = "nested-path"
 			}
 			if why[full] == "" || why[full] == "plain" {
@@ -837,6 +1052,8 @@ func judge(c *common.Ctx, m *sysl.Module, filter string, o obsT, replay interfac
 				r := "plain"
 				if hasNested {
 					r = "nested-path"
+				} else if dottedTable {
+					r = "table-in-app-name-with-dot"
 				}
 				j.fail("edge-extra:"+r, fmt.Sprintf("%s.%s has %d relationship line(s) to %s but %d field(s) referring to it", ct.app, ct.name, n, full, exp[full]))
 			}
@@ -850,6 +1067,10 @@ func judge(c *common.Ctx, m *sysl.Module, filter string, o obsT, replay interfac
 				r = "table-ref-to-missing-type"
 			case hasNested:
 				r = "nested-path"
+			case bareHit:
+				r = "dotted-name-bare-lookup"
+			case dottedTable:
+				r = "table-in-app-name-with-dot"
 			}
 			j.fail("edge-dangling:"+r, fmt.Sprintf("%s.%s has %d relationship line(s) to aliases that are no class, %d field(s) refer to model types outside the diagram", ct.app, ct.name, dangling, tolerated))
 		}
@@ -898,7 +1119,7 @@ func (a *atoms) gRef(r *sysl.ScopedRef) string {
 	ctx := syslutil.JoinAppName(r.GetContext().GetAppname())
 	app := "None"
 	if r.GetRef().GetAppname().GetPart() != nil {
-		app = fmt.Sprintf("(Some %d%%positive)", a.id(syslutil.JoinAppName(r.GetRef().GetAppname())))
+		app = "(Some " + a.str(syslutil.JoinAppName(r.GetRef().GetAppname())) + ")"
 	}
 	var ps []string
 	for _, p := range r.GetRef().GetPath() {
@@ -908,7 +1129,7 @@ func (a *atoms) gRef(r *sysl.ScopedRef) string {
 	for _, p := range r.GetRef().GetAppname().GetPart() {
 		parts = append(parts, a.str(p))
 	}
-	return fmt.Sprintf("(R %d %s [%s] [%s])", a.id(ctx), app, strings.Join(parts, ";"), strings.Join(ps, ";"))
+	return fmt.Sprintf("(R %s %s [%s] [%s])", a.str(ctx), app, strings.Join(parts, ";"), strings.Join(ps, ";"))
 }
 func (a *atoms) gElem(t *sysl.Type) string {
 	switch {
@@ -935,7 +1156,34 @@ func (a *atoms) gField(t *sysl.Type) string {
 	return "FOther"
 }
 
-func (a *atoms) gModule(m *sysl.Module, fieldID func(string) int) string {
+// enumerators in an order the Go map iteration may have had: by name, and of several enumerators with one value the
+// one the diagram printed (the last `valToName[val] = name`) last
+func enumOrder(items map[string]int64, printed []string) []string {
+	var ns []string
+	for n := range items {
+		ns = append(ns, n)
+	}
+	sort.Strings(ns)
+	won := map[string]bool{}
+	for _, p := range printed {
+		won[p] = true
+	}
+	var first, last []string
+	byVal := map[int64]int{}
+	for _, v := range items {
+		byVal[v]++
+	}
+	for _, n := range ns {
+		if byVal[items[n]] > 1 && won[n] {
+			last = append(last, n)
+		} else {
+			first = append(first, n)
+		}
+	}
+	return append(first, last...)
+}
+
+func (a *atoms) gModule(m *sysl.Module, fieldID func(string) int, printedItems map[string][]string) string {
 	type ent struct{ full, term string }
 	var es []ent
 	for _, ap := range m.GetApps() {
@@ -964,9 +1212,13 @@ func (a *atoms) gModule(m *sysl.Module, fieldID func(string) int) string {
 			case t.GetPrimitive() != sysl.Type_NO_Primitive:
 				def = fmt.Sprintf("(DPrim %d)", int(t.GetPrimitive()))
 			case t.GetEnum() != nil:
-				def = "DEnum"
+				var it []string
+				for _, n := range enumOrder(t.GetEnum().GetItems(), printedItems[app+"."+tn]) {
+					it = append(it, fmt.Sprintf("(%d%%positive, %d%%Z)", fieldID(n), t.GetEnum().GetItems()[n]))
+				}
+				def = "(DEnum [" + strings.Join(it, ";") + "])"
 			}
-			es = append(es, ent{app + "." + tn, fmt.Sprintf("(En %d %s %s)", a.id(app), a.str(tn), def)})
+			es = append(es, ent{app + "." + tn, fmt.Sprintf("(En %s %s %s)", a.str(app), a.str(tn), def)})
 		}
 	}
 	sort.Slice(es, func(i, j int) bool { return es[i].full < es[j].full })
@@ -1019,6 +1271,7 @@ func (a *atoms) gItems(txt string, fieldID func(string) int) (string, bool) {
 			inBlock, inEnum = false, false
 			continue
 		case inEnum:
+			it = append(it, fmt.Sprintf("IItem %d%%positive", fieldID(ln)))
 			continue
 		}
 		if inBlock {
@@ -1071,64 +1324,291 @@ func (a *atoms) gItems(txt string, fieldID func(string) int) (string, bool) {
 
 type replayT struct {
 	Name   string `json:"name"`
-	Filter string `json:"per_app_view_of,omitempty"`
+	Filter string `json:"per_app_view_of,omitempty"` // short form: the per-application view of this application
+	Spec   *wspec `json:"datamodel_command,omitempty"`
 	Text   string `json:"sysl"`
+}
+
+// the invocation a (text, per-application filter) pair of the earlier rounds stands for
+func specOf(filter string) *wspec {
+	switch {
+	case filter == "":
+		return &wspec{Direct: true, Output: "all.png"}
+	case strings.Contains(filter, "."): // an action statement cannot name an application with '.'
+		return &wspec{Direct: true, Output: "%(epname).png", Key: filter + ".png"}
+	}
+	return &wspec{Output: "%(epname).png", Project: projectApp, Endpoints: []wEndpoint{{"View", []string{filter}}}, Key: "View.png"}
+}
+
+func hasShortTableRef(m *sysl.Module) bool {
+	for _, a := range m.GetApps() {
+		for _, t := range a.GetTypes() {
+			for _, ft := range t.GetRelation().GetAttrDefs() {
+				if ft.GetTypeRef() != nil && len(ft.GetTypeRef().GetRef().GetPath()) < 2 {
+					return true
+				}
+			}
+		}
+	}
+	return false
+}
+
+var classFormats = []string{"%(classname)", "[%(classname)]", "%(classname) x"}
+
+func genSpec(r *common.Rng, apps []*sApp) *wspec {
+	real := func(a *sApp) string { return unesc(a.Name) }
+	w := &wspec{ClassFormat: classFormats[r.Intn(len(classFormats))]}
+	if r.Chance(1, 5) {
+		w.Title = "T"
+	}
+	endpoints := func() {
+		n := 1 + r.Intn(3)
+		for i := 0; i < n; i++ {
+			e := wEndpoint{Name: fmt.Sprintf("V%d", i+1)}
+			k := r.Intn(100)
+			pick := func() string {
+				a := apps[r.Intn(len(apps))]
+				if strings.Contains(a.Name, "%2E") { // cannot be named by an action: the statement keeps the text as written
+					return a.Name
+				}
+				return real(a)
+			}
+			switch {
+			case k < 55:
+				e.Stmts = []string{pick()}
+			case k < 75:
+				e.Stmts = []string{pick(), pick()}
+			case k < 85:
+				e.Stmts = []string{"return ok", "Nope", pick()}
+			case k < 93:
+				e.Stmts = []string{pick(), "Nope", "return ok"}
+			default:
+				e.Stmts = []string{"Nope"}
+			}
+			w.Endpoints = append(w.Endpoints, e)
+		}
+	}
+	k := r.Intn(100)
+	switch {
+	case k < 38:
+		w.Direct, w.Output = true, "all.png"
+	case k < 60:
+		w.Direct, w.Output = true, "%(epname).png"
+		w.Key = real(apps[r.Intn(len(apps))]) + ".png"
+	case k < 84:
+		w.Output, w.Project = "%(epname).png", projectApp
+		endpoints()
+		w.Key = w.Endpoints[r.Intn(len(w.Endpoints))].Name + ".png"
+	case k < 91:
+		w.Output, w.Project = "all.png", projectApp
+		endpoints()
+	case k < 94:
+		w.Output, w.Project = "%(epname).png", "NoSuchProject"
+	default:
+		w.Output, w.Project, w.Filter = "%(epname).png", projectApp, "V[13]"
+		endpoints()
+		w.Key = "V1.png"
+	}
+	return w
+}
+
+// the invocation as DmWrap.winput; output names are interned by outID
+func gWinput(a *atoms, m *sysl.Module, w *wspec, outID func(string) int) string {
+	hasEp := w.hasEp()
+	if w.Direct {
+		var ns []string
+		for an := range m.GetApps() {
+			ns = append(ns, an)
+		}
+		sort.Strings(ns)
+		var it []string
+		for _, an := range ns {
+			app := m.GetApps()[an]
+			out := w.Output
+			if hasEp {
+				out = cmdutils.MakeFormatParser(w.Output).FmtOutput(an, an, app.GetLongName(), app.GetAttrs())
+			}
+			it = append(it, fmt.Sprintf("WA %s %d%%positive", a.str(syslutil.JoinAppName(app.GetName())), outID(out)))
+		}
+		return fmt.Sprintf("(WDirect %s %d%%positive [%s])", common.GBool(hasEp), outID(w.Output), strings.Join(it, "; "))
+	}
+	pa, found := m.GetApps()[w.Project]
+	if !found {
+		return fmt.Sprintf("(WProject false %s [])", common.GBool(hasEp))
+	}
+	var ens []string
+	for en := range pa.GetEndpoints() {
+		ens = append(ens, en)
+	}
+	sort.Strings(ens)
+	var it []string
+	for _, en := range ens {
+		ep := pa.GetEndpoints()[en]
+		out := w.Output
+		if hasEp {
+			out = cmdutils.MakeFormatParser(w.Output).FmtOutput(w.Project, en, ep.GetLongName(), ep.GetAttrs())
+		}
+		match := w.Filter == "" || regexp.MustCompile(w.Filter).MatchString(out)
+		var sts []string
+		for _, st := range ep.GetStmt() {
+			act, ok := st.GetStmt().(*sysl.Statement_Action)
+			switch {
+			case !ok:
+				sts = append(sts, "WOther")
+			case m.GetApps()[act.Action.GetAction()] != nil:
+				sts = append(sts, "WAction (Some "+a.str(syslutil.JoinAppName(m.GetApps()[act.Action.GetAction()].GetName()))+")")
+			default:
+				sts = append(sts, "WAction None")
+			}
+		}
+		it = append(it, fmt.Sprintf("WE %d%%positive %s [%s]", outID(out), common.GBool(match), strings.Join(sts, "; ")))
+	}
+	return fmt.Sprintf("(WProject true %s [%s])", common.GBool(hasEp), strings.Join(it, ";\n    "))
 }
 
 func main() {
 	c := common.Setup("C15")
 	defer c.Finish()
 	logrus.SetOutput(new(bytes.Buffer))
-	c.Res.Rule = "each case = one generated Sysl module (1-4 applications; tuples, tables, enums, primitive and other aliases, unions, nested types; primitive, optional, set/sequence/list and reference fields: local, cross-application, self, repeated, nested-name, dangling) compiled by the real parser and drawn by GenerateDataModels (--direct), whole-model view or the per-application view of one application; distinct = distinct (text, view); non-trivial = at least one field refers to a type the diagram draws"
-	header := `From Coq Require Import List NArith PArith Bool. Import ListNotations.
-Require Import Verif.DataModel.DmShapeTypes Verif.DataModel.DmModel Verif.DataModel.Run Verif.Base.Harness.
-Definition R (c:positive) (a:option positive) (ps p:list (list positive)) := {| r_ctx := c; r_app := a; r_parts := ps; r_path := p |}.
-Definition En (a:positive) (n:list positive) (d:tdef) := {| e_app := a; e_name := n; e_def := d |}.`
+	c.Res.Rule = "each case = one generated Sysl module (1-4 applications, names with ::, with '.' (%2E) and in prefix relation; tuples, tables, enums with 1-4 enumerators (a quarter with a repeated value), primitive / reference / collection aliases, unions, nested types, names with '.'; fields: primitive (with constraints), optional, set/sequence/list, in-place tuples, references local, cross-application, self, repeated, by nested name (A.B and A%2EB), dangling) compiled by the real parser, plus one invocation of `sysl datamodel` (GenerateDataModels: --direct or a generated project application with 1-3 endpoints naming 0-2 applications, output name with or without %(epname), filter, class format, title); every diagram of the returned map is judged; distinct = distinct (text, invocation); non-trivial = at least one field refers to a type a diagram draws"
+	header := `From Coq Require Import List NArith PArith ZArith Bool. Import ListNotations.
+Require Import Verif.DataModel.DmShapeTypes Verif.DataModel.DmModel Verif.DataModel.DmWrap Verif.DataModel.Run Verif.Base.Harness.
+Definition R (c:list positive) (a:option (list positive)) (ps p:list (list positive)) := {| r_ctx := c; r_app := a; r_parts := ps; r_path := p |}.
+Definition En (a:list positive) (n:list positive) (d:tdef) := {| e_app := a; e_name := n; e_def := d |}.
+Definition WA (n:list positive) (o:positive) := {| w_name := n; w_out := o |}.
+Definition WE (o:positive) (m:bool) (st:list wstmt) := {| ep_out := o; ep_match := m; ep_stmts := st |}.`
 	footer := `Definition M := Eval vm_compute in mismatches c15_ok cases. Print M.`
 	cs := c.NewCases("C15", header, "c15_case", footer, 60)
+	syslBin := os.Getenv("VERIF_SYSL_BIN")
+	cliLeft := 10
+	if c.Thorough() {
+		cliLeft = 60
+	}
 
-	one := func(name, text, filter string, toCoq bool) {
-		rp := replayT{name, filter, text}
-		m, err := compile(text, filter)
+	one := func(name, text string, w *wspec, filter string, toCoq bool) {
+		rp := replayT{Name: name, Filter: filter, Spec: w, Text: text}
+		if filter != "" {
+			rp.Spec = nil
+		}
+		m, err := compile(text, w)
 		if err != nil {
 			c.Hist("parse-error")
 			c.Res.Notes = append(c.Res.Notes, "generated text did not compile ("+name+"): "+err.Error())
 			return
 		}
-		if filter != "" {
-			if _, ok := m.GetApps()[filter]; !ok {
-				filter = ""
-				rp.Filter = ""
+		o := runReal(m, w)
+		exp, found := expected(m, w)
+		nt := false
+		switch {
+		case o.panicMsg != "":
+			key := "panic:other"
+			if hasShortTableRef(m) {
+				key = "panic:table-ref-without-field"
+			}
+			c.Fail(key, fmt.Sprintf("no diagram: GenerateDataModels panicked (%s)", o.panicMsg), rp)
+			nt = true
+		case o.errMsg != "" && found:
+			c.Fail("datamodel-error", "GenerateDataModels failed: "+o.errMsg, rp)
+		case o.errMsg != "":
+			c.Hist("outcome:project-not-found")
+		default:
+			var ks []string
+			for k := range exp {
+				ks = append(ks, k)
+			}
+			sort.Strings(ks)
+			for _, k := range ks {
+				txt, ok := o.res[k]
+				if !ok {
+					c.Fail("diagram-missing", fmt.Sprintf("GenerateDataModels returned no diagram %s (%s)", k, exp[k].desc), rp)
+					continue
+				}
+				if judge(c, m, exp[k], txt, rp) {
+					nt = true
+				}
+				switch {
+				case exp[k].apps == nil:
+					c.Hist("view:whole-model")
+				case exp[k].several:
+					c.Hist("view:endpoint-several-apps")
+				default:
+					c.Hist("view:per-app")
+				}
+			}
+			for k := range o.res {
+				if exp[k] == nil {
+					c.Fail("diagram-extra", fmt.Sprintf("GenerateDataModels returned a diagram %s that no application / endpoint asks for", k), rp)
+				}
 			}
 		}
-		o := runReal(m, filter, false)
-		nt := judge(c, m, filter, o, rp)
-		if filter != "" { // the same view through the other entry point
-			od := runReal(m, filter, true)
-			judge(c, m, filter, od, rp)
-			if od.text != o.text || od.panicMsg != o.panicMsg {
-				c.Fail("view-entry-modes-differ", "the per-application view of "+filter+" differs between --direct and project manner", rp)
+		// the per-application view of one application through the other entry point
+		if !w.Direct && w.hasEp() && o.res != nil {
+			od := runReal(m, &wspec{Direct: true, Output: w.Output, ClassFormat: w.ClassFormat, Title: w.Title})
+			for k, cv := range exp {
+				if cv.several || len(cv.apps) != 1 {
+					continue
+				}
+				dk := strings.ReplaceAll(w.Output, "%(epname)", cv.last)
+				if od.res == nil || normEnum(od.res[dk]) != normEnum(o.res[k]) {
+					c.Fail("view-entry-modes-differ", "the per-application view of "+cv.last+" differs between --direct and project manner", rp)
+				}
+				c.Hist("view:per-app-both-entry-modes")
 			}
-			c.Hist("view:per-app-both-entry-modes")
 		}
-		h := sha1.Sum([]byte(text + "|" + filter))
+		// the command itself: the files `sysl datamodel` writes are the entries of the map
+		if syslBin != "" && cliLeft > 0 && o.panicMsg == "" && o.errMsg == "" {
+			cliLeft--
+			cliCompare(c, syslBin, text, w, o.res, rp)
+		}
+		sj, _ := json.Marshal(w)
+		h := sha1.Sum([]byte(text + "|" + string(sj)))
 		c.Count(fmt.Sprintf("%x", h[:8]), nt)
-		if filter != "" {
-			c.Hist("view:per-app")
-		} else {
-			c.Hist("view:whole-model")
+		switch {
+		case w.Direct && w.hasEp():
+			c.Hist("invocation:direct-epname")
+		case w.Direct:
+			c.Hist("invocation:direct")
+		case w.hasEp():
+			c.Hist("invocation:project-epname")
+		default:
+			c.Hist("invocation:project")
 		}
 		if o.panicMsg != "" {
 			c.Hist("outcome:panic")
-		} else {
+		} else if o.errMsg == "" {
 			c.Hist("outcome:diagram")
 		}
 		nTypes, nRef := 0, 0
 		for _, a := range m.GetApps() {
-			for _, t := range a.GetTypes() {
+			if strings.Contains(syslutil.JoinAppName(a.GetName()), ".") {
+				c.Hist("app:name-with-dot")
+			}
+			for tn, t := range a.GetTypes() {
 				nTypes++
 				k, _ := kindOf(t)
+				if k == "other" {
+					switch {
+					case t.GetOneOf() != nil:
+						k = "other-union"
+					case t.GetTypeRef() != nil:
+						k = "other-alias-of-reference"
+					case t.GetSet() != nil || t.GetSequence() != nil || t.GetList() != nil:
+						k = "other-alias-of-collection"
+					}
+				}
 				c.Hist("type:" + k)
+				if strings.Contains(tn, ".") {
+					c.Hist("type:name-with-dot-or-nested")
+				}
+				if k == "enum" {
+					vs := map[int64]bool{}
+					for _, v := range t.GetEnum().GetItems() {
+						vs[v] = true
+					}
+					if len(vs) < len(t.GetEnum().GetItems()) {
+						c.Hist("enum:repeated-value")
+					}
+				}
 				if k == "table" || k == "tuple" {
 					for _, ft := range attrsOf(t) {
 						ri := fieldInfo(ft)
@@ -1137,12 +1617,20 @@ Definition En (a:positive) (n:list positive) (d:tdef) := {| e_app := a; e_name :
 							w = "plain"
 						}
 						switch {
+						case ri.isRef && ri.noctx:
+							c.Hist("field:inplace-tuple")
+							nRef++
 						case ri.isRef && len(ri.path) > 1 && k == "tuple":
 							c.Hist("field:" + w + "-ref-nested")
+							nRef++
+						case ri.isRef && len(ri.path) == 1 && strings.Contains(ri.path[0], "."):
+							c.Hist("field:" + w + "-ref-dotted-element")
 							nRef++
 						case ri.isRef:
 							c.Hist("field:" + w + "-ref")
 							nRef++
+						case ri.prim != "" && ft.GetConstraint() != nil && len(ft.GetConstraint()) > 0:
+							c.Hist("field:" + w + "-prim-constrained")
 						case ri.prim != "":
 							c.Hist("field:" + w + "-prim")
 						default:
@@ -1164,21 +1652,57 @@ Definition En (a:positive) (n:list positive) (d:tdef) := {| e_app := a; e_name :
 			fids[s] = len(fids) + 1
 			return fids[s]
 		}
-		mod := at.gModule(m, fieldID)
-		obs := "None"
-		if o.panicMsg == "" && !o.missing {
-			items, ok := at.gItems(o.text, fieldID)
-			if !ok {
-				items = "[IEnd; IEnd; IEnd]" // a line the model cannot print: force a mismatch
+		oids := map[string]int{}
+		outID := func(s string) int {
+			if v, ok := oids[s]; ok {
+				return v
 			}
-			obs = "(Some " + items + ")"
+			oids[s] = len(oids) + 1
+			return oids[s]
 		}
-		f := "None"
-		if filter != "" {
-			f = fmt.Sprintf("(Some %d%%positive)", at.id(filter))
+		win := gWinput(at, m, w, outID)
+		key := w.Key
+		if _, ok := o.res[key]; !ok || key == "" {
+			var ks []string
+			for k := range o.res {
+				ks = append(ks, k)
+			}
+			sort.Strings(ks)
+			if len(ks) > 0 && key == "" {
+				key = ks[0]
+			} else if key == "" {
+				key = w.Output
+			}
 		}
-		cs.Add(fmt.Sprintf("(%s,\n  %s,\n  %s)", f, mod, obs), rp)
-		c.Sample(map[string]interface{}{"name": name, "view": filter, "types": nTypes, "reference_fields": nRef, "sysl": text})
+		okeys, obs := "None", "None"
+		printed := map[string][]string{}
+		if o.res != nil {
+			var ids []int
+			for k := range o.res {
+				ids = append(ids, outID(k))
+			}
+			sort.Ints(ids)
+			var it []string
+			for _, i := range ids {
+				it = append(it, fmt.Sprintf("%d%%positive", i))
+			}
+			okeys = "(Some [" + strings.Join(it, ";") + "])"
+			if txt, ok := o.res[key]; ok {
+				for _, cl := range readDiagram(txt).classes {
+					if cl.head == "enum" {
+						printed[cl.name] = cl.items
+					}
+				}
+				items, iok := at.gItems(txt, fieldID)
+				if !iok {
+					items = "[IEnd; IEnd; IEnd]" // a line the model cannot print: force a mismatch
+				}
+				obs = "(Some " + items + ")"
+			}
+		}
+		mod := at.gModule(m, fieldID, printed)
+		cs.Add(fmt.Sprintf("(%s,\n  %d%%positive,\n  %s,\n  %s,\n  %s)", win, outID(key), mod, okeys, obs), rp)
+		c.Sample(map[string]interface{}{"name": name, "invocation": w, "types": nTypes, "reference_fields": nRef, "sysl": text})
 	}
 
 	if c.Replay != "" {
@@ -1187,12 +1711,26 @@ Definition En (a:positive) (n:list positive) (d:tdef) := {| e_app := a; e_name :
 			fmt.Fprintln(os.Stderr, err)
 			os.Exit(3)
 		}
-		one(rp.Name, rp.Text, rp.Filter, true)
+		w := rp.Spec
+		if w == nil {
+			w = specOf(rp.Filter)
+		}
+		one(rp.Name, rp.Text, w, rp.Filter, true)
 		cs.Close()
-		m, err := compile(rp.Text, rp.Filter)
-		if err == nil {
-			o := runReal(m, rp.Filter, false)
-			fmt.Printf("replay %s (view %q): panic=%q failures=%d\n%s\n", rp.Name, rp.Filter, o.panicMsg, len(c.Res.Failures), o.text)
+		m, err := compile(rp.Text, w)
+		if err != nil {
+			fmt.Println("parse error:", err)
+			return
+		}
+		o := runReal(m, w)
+		fmt.Printf("replay %s: panic=%q error=%q failures=%d\n", rp.Name, o.panicMsg, o.errMsg, len(c.Res.Failures))
+		var ks []string
+		for k := range o.res {
+			ks = append(ks, k)
+		}
+		sort.Strings(ks)
+		for _, k := range ks {
+			fmt.Printf("---- %s\n%s\n", k, o.res[k])
 		}
 		for _, f := range c.Res.Failures {
 			fmt.Println("  ", f.Key, "-", f.What)
@@ -1201,7 +1739,11 @@ Definition En (a:positive) (n:list positive) (d:tdef) := {| e_app := a; e_name :
 	}
 
 	for _, k := range corpus {
-		one("corpus:"+k.name, k.text, k.filter, true)
+		w := k.spec
+		if w == nil {
+			w = specOf(k.filter)
+		}
+		one("corpus:"+k.name, k.text, w, k.filter, true)
 	}
 	n := 420
 	if c.Thorough() {
@@ -1214,11 +1756,84 @@ Definition En (a:positive) (n:list positive) (d:tdef) := {| e_app := a; e_name :
 		r := c.Rng.Fork()
 		apps := generate(r, i%5 == 4)
 		text := render(apps)
-		filter := ""
-		if r.Chance(3, 10) {
-			filter = apps[r.Intn(len(apps))].Name
-		}
-		one(fmt.Sprintf("gen:%d", i), text, filter, true)
+		one(fmt.Sprintf("gen:%d", i), text, genSpec(r, apps), "", true)
 	}
 	cs.Close()
+}
+
+// `sysl datamodel` itself: written files = entries of the map (each followed by a newline)
+func cliCompare(c *common.Ctx, bin, text string, w *wspec, res map[string]string, rp replayT) {
+	dir, err := os.MkdirTemp(c.Out, "cli")
+	if err != nil {
+		return
+	}
+	defer os.RemoveAll(dir)
+	os.WriteFile(filepath.Join(dir, "m.sysl"), []byte(text+projectText(w)), 0o644)
+	os.MkdirAll(filepath.Join(dir, "out"), 0o755)
+	output := "out/" + strings.TrimSuffix(w.Output, ".png") + ".puml"
+	args := []string{"datamodel", "--root", ".", "-o", output}
+	if w.Direct {
+		args = append(args, "-d")
+	} else {
+		args = append(args, "-j", w.Project)
+	}
+	if w.Filter != "" {
+		args = append(args, "-f", w.Filter)
+	}
+	if w.ClassFormat != "" {
+		args = append(args, "--class_format", w.ClassFormat)
+	}
+	if w.Title != "" {
+		args = append(args, "-t", w.Title)
+	}
+	args = append(args, "m.sysl")
+	cmd := exec.Command(bin, args...)
+	cmd.Dir = dir
+	outb, err := cmd.CombinedOutput()
+	if err != nil {
+		c.Fail("cli-fails", fmt.Sprintf("sysl %s: %v: %s", strings.Join(args, " "), err, strings.TrimSpace(string(outb))), rp)
+		return
+	}
+	got := map[string]string{}
+	filepath.Walk(filepath.Join(dir, "out"), func(p string, fi os.FileInfo, err error) error {
+		if err == nil && !fi.IsDir() {
+			b, _ := os.ReadFile(p)
+			rel, _ := filepath.Rel(dir, p)
+			got[rel] = string(b)
+		}
+		return nil
+	})
+	want := map[string]string{}
+	for k, v := range res {
+		want["out/"+strings.TrimSuffix(k, ".png")+".puml"] = v + "\n"
+	}
+	c.Hist("cli:compared")
+	if len(got) != len(want) {
+		c.Fail("cli-output-differs", fmt.Sprintf("sysl datamodel wrote %d file(s), GenerateDataModels returns %d diagram(s)", len(got), len(want)), rp)
+		return
+	}
+	for k, v := range want {
+		if normEnum(got[k]) != normEnum(v) {
+			c.Fail("cli-output-differs", "sysl datamodel wrote a different text for "+k+" than GenerateDataModels returns", rp)
+			return
+		}
+	}
+}
+
+// two runs may print different names for enumerators with one value (map order): compare the rest
+func normEnum(s string) string {
+	var out []string
+	in := false
+	for _, ln := range strings.Split(s, "\n") {
+		switch {
+		case strings.HasPrefix(ln, "enum "):
+			in = true
+		case ln == "}":
+			in = false
+		case in:
+			continue
+		}
+		out = append(out, ln)
+	}
+	return strings.Join(out, "\n")
 }
